@@ -445,7 +445,8 @@ func checkSemanticValidation(c *Ctx, p *packages.Package) {
 			}
 			installs := false
 			for _, st := range ifs.Body.List {
-				if as, ok := st.(*ast.AssignStmt); ok && len(as.Lhs) == 1 {
+				// an assignment to a variable that lives outside the branch (a temporary declared in the branch installs nothing)
+				if as, ok := st.(*ast.AssignStmt); ok && len(as.Lhs) == 1 && as.Tok != token.DEFINE {
 					if _, isIdent := as.Lhs[0].(*ast.Ident); isIdent {
 						installs = true
 					}
